@@ -77,7 +77,7 @@ func init() {
 			// twin orders created in the same block (same examination height), one of them cancelled early
 			add(map[string]string{"replica": "1", "attempts": "3", "extra": "1", "td": "small", "twin": "1"})
 			add(map[string]string{"replica": "2", "attempts": "2", "extra": "0", "td": "small", "twin": "1"})
-			jobs = append(jobs, recipes("C12", "tiny-reduce")(tier, seed)...)
+			jobs = append(jobs, recipes("C12", "tiny-reduce", "exam-during-migration")(tier, seed)...)
 			if tier == "thorough" {
 				for _, td := range []string{"half", "over"} {
 					for _, extra := range []string{"0", "2"} {
@@ -169,8 +169,9 @@ func init() {
 		}
 		c01thorough = append(c01thorough, a)
 	}
+	c01thorough = append(c01thorough, map[string]string{"leader": "selection", "plans": "plain,plain-2,plain-3,noise-1,noise-2,restart5", "hugepop": "1", "orders": "10", "direct": "0"})
 	check.RegisterSpec(&check.Spec{Prop: "C01", Level: "exploration",
-		Rule: "a leader executes a seeded workload (lifecycle walk, staking/role walk, did registry walk, authorization matrix, fault walk) while its consensus request stream is recorded; follower processes replay the identical stream under perturbations that must not matter: another process (different map seed), wall clock +1 h and -1 day (virtual clock), CheckTx/Simulate/Query calls inserted between consensus calls, restarts; every InitChain/BeginBlock/DeliverTx/EndBlock/Commit response (code, data, gas, events, validator updates, app hash; log/info text excluded) is compared byte-wise with the leader's. A race-detector build replays one stream with Simulate/Query goroutines running concurrently; only reports whose access site is inside the repository count. A case is (perturbation kind, leader workload, restarts/kills bucket, noise yes/no); distinct_nontrivial counts distinct cases.",
+		Rule: "a leader executes a seeded workload (lifecycle walk, staking/role walk, did registry walk, authorization matrix, fault walk, placement over ~100 eligible providers with draws that exhaust the block-hash seed) while its consensus request stream is recorded; follower processes replay the identical stream under perturbations that must not matter: another process (different map seed), wall clock +1 h and -1 day (virtual clock), CheckTx/Simulate/Query calls inserted between consensus calls, restarts; every InitChain/BeginBlock/DeliverTx/EndBlock/Commit response (code, data, gas, events, validator updates, app hash; log/info text excluded) is compared byte-wise with the leader's. A race-detector build replays one stream with Simulate/Query goroutines running concurrently; only reports whose access site is inside the repository count. A case is (perturbation kind, leader workload, restarts/kills bucket, noise yes/no); distinct_nontrivial counts distinct cases.",
 		Jobs: replicaJobs("C01",
 			[]map[string]string{
 				{"leader": "staking", "plans": c01plans + ",racenoise", "ops": "160", "stores": "1"},
@@ -178,6 +179,7 @@ func init() {
 				{"leader": "life:mixed", "plans": "plain,plain-2,clock3600,noise-1,restart401", "ops": "30"},
 				{"leader": "authz", "plans": "plain,noise-1,noise-2,restart5", "rounds": "1", "relayers": "1"},
 				{"leader": "renewals:multiversion-migrate", "plans": "plain,plain-2,plain-3,plain-4,noise-1"},
+				{"leader": "selection", "plans": "plain,plain-2,noise-1,restart5", "hugepop": "1", "orders": "4", "direct": "0"},
 			}, c01thorough),
 		MinCases:    map[string]int{"quick": 6, "thorough": 12},
 		Assumptions: []string{"only amd64 is available: cross-architecture floating point (Node.Reputation is float32) cannot be observed", "SDK-internal races (baseapp, params) are counted but not attributed to this repository"}})
@@ -243,6 +245,7 @@ func init() {
 				add("hostile", 10, map[string]string{"n": "400"})
 				add("selection", 24, map[string]string{"direct": "3000", "orders": "16"})
 				add("selection", 10, map[string]string{"direct": "3000", "orders": "10", "bigpop": "1"})
+				add("selection", 6, map[string]string{"direct": "500", "orders": "8", "hugepop": "1"})
 				add("config", 120, map[string]string{"ops": "40"})
 				add("life", 20, map[string]string{"ops": "110", "bigtimeout": "1"})
 				add("staking", 6, map[string]string{"ops": "600", "offline": "40"})
@@ -259,6 +262,7 @@ func init() {
 				add("hostile", 2, map[string]string{"n": "120"})
 				add("selection", 3, map[string]string{"direct": "500", "orders": "8"})
 				add("selection", 1, map[string]string{"direct": "500", "orders": "6", "bigpop": "1"})
+				add("selection", 1, map[string]string{"direct": "100", "orders": "4", "hugepop": "1"})
 				add("config", 12, map[string]string{"ops": "14"})
 				add("life", 2, map[string]string{"ops": "40", "bigtimeout": "1"})
 				add("staking", 1, map[string]string{"ops": "150", "offline": "40"})
@@ -289,6 +293,7 @@ func init() {
 				}
 				jobs = append(jobs, check.Job{Prop: "C15", Scenario: "selection", Seed: seed*86028121 + int64(i), Args: a})
 			}
+			jobs = append(jobs, check.Job{Prop: "C15", Scenario: "selection", Seed: seed*86028121 + 1000, Args: map[string]string{"direct": "100", "orders": "4", "hugepop": "1"}})
 			return jobs
 		},
 		MinCases:    map[string]int{"quick": 20, "thorough": 40},
@@ -357,7 +362,7 @@ func init() {
 
 	check.RegisterSpec(&check.Spec{Prop: "C13", Level: "exploration",
 		Rule:        "seeded random walks over the order lifecycle (store/ready/complete/update/force-push/renew/terminate/cancel/migrate/claim/capacity changes, silent providers, block advance across every scheduled height); after every block all relations are evaluated on the committed state. A case is the shape (bucketed counts of orders, shards, models, pending timeouts, pending expiries) of a state on which the relations were evaluated; distinct_nontrivial counts distinct shapes with at least one order or model.",
-		Jobs:        withExtra(lifeJobs("C13", 5, 64, nil), recipes("C13", "migrated", "afterroll", "longer", "tiny-reduce", "double-migrate", "fp-renewed", "terminate+twin", "migrated+twin")),
+		Jobs:        withExtra(lifeJobs("C13", 5, 64, nil), recipes("C13", "migrated", "afterroll", "longer", "tiny-reduce", "double-migrate", "fp-renewed", "terminate+twin", "migrated+twin", "term-migrating-renewed", "fp-migrating-renewed", "cancel-old-expired", "exam-during-migration")),
 		MinCases:    map[string]int{"quick": 10, "thorough": 30},
 		Assumptions: []string{"state is read through the keepers' own getters over the committed multistore", "workloads reach only the states the seeded walks produce"}})
 	check.Register("recreate", scnRecreate)
@@ -381,6 +386,9 @@ func init() {
 				for _, m := range []string{"cancel", "timeout", "terminate-inflight"} {
 					jobs = append(jobs, check.Job{Prop: "C05", Scenario: "recreate", Seed: seed*373587883 + int64(len(jobs)), Args: map[string]string{"mode": m}})
 				}
+				for _, m := range []string{"cancel", "timeout"} {
+					jobs = append(jobs, check.Job{Prop: "C05", Scenario: "recreate", Seed: seed*373587883 + int64(len(jobs)), Args: map[string]string{"mode": m, "alias": "none"}})
+				}
 			}
 			return jobs
 		}),
@@ -389,13 +397,13 @@ func init() {
 	check.RegisterSpec(&check.Spec{Prop: "C06", Level: "exploration",
 		Rule: lifeRule + "Plus a recipe with a sponsor-paid order whose owner DID has no payment address (refund into the did module). On every block-boundary snapshot the four escrow inequalities are evaluated against liabilities recomputed from the exported records; entitled payouts that fail are flagged. A case is the bucketed shape of a state (orders, live shards, queued renewals, debts, rewards, DID balances); distinct_nontrivial counts distinct shapes.",
 		Jobs: withExtra(lifeJobs("C06", 5, 48, nil), func(tier string, seed int64) []check.Job {
-			return append(recipes("C06", "debt-release", "queued", "debt-expire", "term-reassign")(tier, seed), check.Job{Prop: "C06", Scenario: "sponsored-nopay", Seed: seed*472882027 + 1})
+			return append(recipes("C06", "debt-release", "queued", "debt-expire", "term-reassign", "debt-multi")(tier, seed), check.Job{Prop: "C06", Scenario: "sponsored-nopay", Seed: seed*472882027 + 1})
 		}),
 		MinCases:    map[string]int{"quick": 8, "thorough": 16},
 		Assumptions: []string{"liabilities are recomputed from exported module state"}})
 	check.RegisterSpec(&check.Spec{Prop: "C07", Level: "exploration",
 		Rule:        lifeRule + "For every transaction, begin block and end block the monitor compares, per provider, coins moved to/from the node escrow with the change of recorded collateral net of debt, checks recipients, withdrawal against free capacity of the pre-state, and row bounds. A case is (operation, debts present, number of node-escrow flows) or (withdrawal: leaves zero free / capacity in use); distinct_nontrivial counts distinct cases.",
-		Jobs:        withExtra(lifeJobs("C07", 5, 48, nil), recipes("C07", "shorter", "longer", "debt-release", "debt-expire", "migrated", "fp-renewed", "longer+twin")),
+		Jobs:        withExtra(lifeJobs("C07", 5, 48, nil), recipes("C07", "shorter", "longer", "debt-release", "debt-expire", "migrated", "fp-renewed", "longer+twin", "debt-multi")),
 		MinCases:    map[string]int{"quick": 10, "thorough": 20},
 		Assumptions: []string{"reward claims are decided by C08"}})
 	check.RegisterSpec(&check.Spec{Prop: "C08", Level: "exploration",
@@ -424,7 +432,7 @@ func init() {
 	check.RegisterSpec(&check.Spec{Prop: "C11", Level: "exploration",
 		Rule: lifeRule + "Plus recipes: cancel / timeout / terminate (completed and in flight) followed by re-creation of the same data id and advance across the old and new scheduled heights. The monitor builds the reference timetable from accepted requests and checks existence, provider, capacity accounting, model presence and release at every block boundary. A case is a release class (renewals, migrated, term bucket), an early ending (terminate, force-push), a migration hand-over or a re-creation mode; distinct_nontrivial counts distinct cases.",
 		Jobs: withExtra(lifeJobs("C11", 5, 64, nil), func(tier string, seed int64) []check.Job {
-			jobs := recipes("C11", "queued", "afterroll", "migrated", "shorter", "double-migrate", "fp-renewed", "terminate+twin", "shorter+twin")(tier, seed)
+			jobs := recipes("C11", "queued", "afterroll", "migrated", "shorter", "double-migrate", "fp-renewed", "terminate+twin", "shorter+twin", "cancel-old-expired", "timeout-old-expired", "exam-during-migration")(tier, seed)
 			n := 1
 			if tier == "thorough" {
 				n = 8
@@ -464,7 +472,7 @@ func init() {
 		Assumptions: []string{"history is read from the metadata query after every transaction and block"}})
 	check.RegisterSpec(&check.Spec{Prop: "C14", Level: "exploration",
 		Rule:        "same lifecycle walks; after every block the six aggregate equalities are evaluated per provider and network-wide. A case is the bucketed (providers, live shards, any renewed shard, open debts) shape of a state; distinct_nontrivial counts distinct shapes.",
-		Jobs:        withExtra(lifeJobs("C14", 5, 64, nil), recipes("C14", "shorter", "debt-release", "debt-expire", "unaligned", "fp-renewed", "double-migrate", "migrated+twin")),
+		Jobs:        withExtra(lifeJobs("C14", 5, 64, nil), recipes("C14", "shorter", "debt-release", "debt-expire", "unaligned", "fp-renewed", "double-migrate", "migrated+twin", "debt-multi", "term-migrating-renewed")),
 		MinCases:    map[string]int{"quick": 6, "thorough": 12},
 		Assumptions: []string{"state is read through the keepers' own getters over the committed multistore"}})
 }
